@@ -109,7 +109,7 @@ func genHistCase(rng *rand.Rand, prop string) *histCase {
 	if staticBias {
 		for i := range pool {
 			if rng.Intn(3) != 0 {
-				pool[i] = rmodel.Segment{Elems: []rmodel.Elem{{Lit: gen.Idents[rng.Intn(6)]}}}
+				pool[i] = rmodel.Segment{Elems: []rmodel.Elem{{Lit: append(gen.Idents[:6:6], "%41", "%41", "a%21b")[rng.Intn(9)]}}}
 			}
 		}
 	}
@@ -165,6 +165,13 @@ func genHistCase(rng *rand.Rand, prop string) *histCase {
 				}
 			case y < 15:
 				path = ""
+			case y < 16 && strings.Contains(rt.Canon(), "%"):
+				// the decoded spelling of a literal that contains an escape sequence (the route matches raw segments)
+				if u, err := url.PathUnescape(strings.Replace(rt.Canon(), "/?", "/", 1)); err == nil {
+					path = u
+				} else {
+					path = rt.Canon()
+				}
 			default:
 				path = gen.GenPath(rng, routes)
 			}
@@ -177,6 +184,10 @@ func genHistCase(rng *rand.Rand, prop string) *histCase {
 				m = routerMethods[rng.Intn(len(routerMethods))]
 			case 1:
 				m = "BREW"
+			case 2:
+				m = strings.ToLower(m) // method tokens are case-sensitive on the wire: no route is registered for "get"
+			case 3:
+				m = m[:1] + strings.ToLower(m[1:])
 			}
 			c.Steps = append(c.Steps, histStep{Op: "req", Method: m, Path: core.B(path), Hdr: genReqHeaders(rng, lastPairs[ri])})
 		}
@@ -228,6 +239,7 @@ type routeObj struct {
 	fr      *flamego.Route
 	twin    map[string]route.Leaf
 	nHdr    int
+	buf     []string                  // the caller's argument buffer, reused between Headers() calls on this route
 	cons    map[string]*regexp.Regexp // nil = never constrained
 	static  bool
 }
@@ -321,7 +333,9 @@ func judgeHist(w *core.W, c *histCase, prop string) {
 			var pan interface{}
 			func() {
 				defer func() { pan = recover() }()
-				o.fr.Headers(st.Pairs...)
+				// callers commonly refill one buffer and pass it again: the router must not keep referring to it
+				o.buf = append(o.buf[:0], st.Pairs...)
+				o.fr.Headers(o.buf...)
 			}()
 			if pan != nil {
 				w.Violate("headers-panic", c, fmt.Sprintf("step %d: Headers(%q) panicked: %v", si, st.Pairs, pan))
